@@ -10,6 +10,7 @@ import (
 	"encoding/hex"
 	"fmt"
 	"math/rand"
+	"strings"
 
 	"github.com/golang/protobuf/proto"
 	"github.com/willf/bitset"
@@ -28,6 +29,9 @@ type geom struct {
 	PieceLength int64
 	N           int
 	Namespace   string
+	// Claimed: peer ids that belong to somebody else (honest peers connected to
+	// the child, the child itself) -> label; shared by the world's torrents.
+	Claimed map[string]string
 }
 
 func newGeom(content []byte, pieceLength int64, ns string) *geom {
@@ -329,7 +333,22 @@ func classifyFrame(st stage, stream []byte, geoms []*geom, target *geom) parsed 
 	return p
 }
 
+// classifyHandshake names the handshake; one that carries somebody else's peer
+// id is its own class whatever the rest looks like.
 func classifyHandshake(m *p2p.Message, geoms []*geom) (string, bool) {
+	c, hostile := classifyHandshakeFields(m, geoms)
+	if m.Bitfield != nil && len(geoms) > 0 {
+		if label, ok := geoms[0].Claimed[m.Bitfield.PeerID]; ok {
+			if c == "valid-handshake" {
+				return "HANDSHAKE-claims-" + label + "-peer-id", true
+			}
+			return "HANDSHAKE-claims-" + label + "-peer-id+" + strings.TrimPrefix(c, "HANDSHAKE-"), true
+		}
+	}
+	return c, hostile
+}
+
+func classifyHandshakeFields(m *p2p.Message, geoms []*geom) (string, bool) {
 	if m.Type != p2p.Message_BITFIELD {
 		return "HANDSHAKE-wrong-type", true
 	}
@@ -396,6 +415,8 @@ func componentOf(class string) string {
 	switch {
 	case len(class) >= 6 && class[:6] == "frame-":
 		return "conn"
+	case strings.HasPrefix(class, "HANDSHAKE-claims-"):
+		return "scheduler"
 	case len(class) >= 10 && class[:10] == "HANDSHAKE-":
 		if class == "HANDSHAKE-bitfield-longer-than-torrent" {
 			return "dispatcher"
